@@ -5,7 +5,7 @@
 From BU Require Import Lib.Bytes Lib.PolyMod CashAddr.CashAddr Bech32.Bech32
   Checksum.Syndrome Checksum.Valid Checksum.CashDetect Checksum.BechDetect
   Checksum.CashString Checksum.BechString.
-From BU Require Import Gen.Kernels Tie.KernelsTie.
+From BU Require Import Gen.Kernels Tie.KernelsTie Gen.Kernels2 Checksum.SourceDetect.
 
 (* ---------- CashAddr ---------- *)
 (* every string that agrees with an accepted string on the prefix and the separator, has the same
@@ -147,6 +147,31 @@ Theorem C03_bech32_polymod_is_translated_source : forall values,
   Forall (fun x => x < 2 ^ 30) values -> Kernels.bech32Polymod values = Bech32.polymod values.
 Proof. exact bech32Polymod_tie. Qed.
 Print Assumptions C03_bech32_polymod_is_translated_source.
+
+(* ---------- review round 2: the property over the translated source of the two decoders ---------- *)
+(* Gen/Kernels2.v holds DecodeCashAddress and bech32.Decode translated from their Go ASTs on every run,
+   with Go's indexing / slicing as checked primitives; Tie/Kernels2_*.v prove them equal to the models on
+   every input.  A structural change of a decoder that keeps every literal and table (an operator, the
+   order of two tests, a dropped test) breaks these *)
+Theorem C03_cashaddr_source_detects_5 : forall s s' prefix payload,
+  Kernels2.DecodeCashAddress s = Ok (prefix, payload) ->
+  length s' = length s ->
+  firstn (length prefix + 1) s' = firstn (length prefix + 1) s ->
+  (length s - (length prefix + 1) <= 112)%nat ->
+  (1 <= hamming s s' <= 5)%nat ->
+  exists e, Kernels2.DecodeCashAddress s' = Err e.
+Proof. exact cashaddr_src_detects_5. Qed.
+Print Assumptions C03_cashaddr_source_detects_5.
+
+Theorem C03_bech32_source_detects_4 : forall hrp data data' r,
+  Kernels2.Decode (hrp ++ 49 :: data) = Ok r -> ~ In 49 data ->
+  length data' = length data -> ~ In 49 data' ->
+  (hamming data data' <= 4)%nat ->
+  hrp ++ 49 :: data' <> map to_lower (hrp ++ 49 :: data) ->
+  hrp ++ 49 :: data' <> map to_upper (hrp ++ 49 :: data) ->
+  exists e, Kernels2.Decode (hrp ++ 49 :: data') = Err e.
+Proof. exact bech32_src_detects_4_case. Qed.
+Print Assumptions C03_bech32_source_detects_4.
 
 (* ---------- the hypotheses are satisfiable ---------- *)
 (* "bitcoincash:qpm2qsznhks23z7629mms6s4cwef74vcwvy22gdx6a" is accepted; with 'q' -> 'p' at the first
